@@ -17,6 +17,7 @@ RULE = (
     'repeat, stacked blocks, kernel[i], expand_batch, active_dims vs a twin kernel on hand-picked columns, kernel batch size == n; kernel batch '
     'shapes of lower rank / size 1 against the input batch; distinct = (kernel, batch pattern, index kinds); non-trivial iff the expression '
     'selects >=1 and fewer than all entries (relational cells always)'
+    '; pass 5: RFF / index / product-with-index kernels; index-then-operation chains (transpose, diagonal, matmul, second index) on 8x8 operators over 9 slices per side, views of one tensor as the two inputs; lazy diagonal for two inputs'
 )
 REQUIRED = ["lazy_equals_eager", "lazy_index", "index_then", "diag_equals_diagonal", "transpose", "stacked_blocks", "kernel_getitem", "expand_batch", "path:lazy_getitem"]
 ASSUMPTIONS = ["torch dense indexing D[idx] is the reference semantics of an index expression"]
